@@ -191,7 +191,7 @@ func register(c interface{}, capacity int) {
 		return // channels made outside an execution are foreign
 	}
 	p, _ := chanPtr(c)
-	w.chans[p] = &chanState{cap: capacity, name: callerPos(3)}
+	w.chans[p] = &chanState{keep: c, cap: capacity, name: callerPos(3)}
 }
 
 // MkU registers an unbuffered channel; the real channel has capacity 1 so that
